@@ -12,10 +12,11 @@ from __future__ import annotations
 from itertools import combinations_with_replacement
 from typing import Any, Dict, List, Tuple
 
+from mc import domain_g as dg
 from mc import domain_w as dw
 from mc import env
 from mc.core import Acc, Ctx, HarnessError
-from mc.search import Cfg, call_site, execute
+from mc.search import Cfg, GCfg, call_site, execute
 
 LEVEL = "model_checking"
 MAX_LABELS_MEMBERSHIP = 5
@@ -68,7 +69,8 @@ def observe(db, full: bool) -> Tuple[Dict[str, Any], List[str]]:
     for key in sorted(stored):
         start, ends = key
         parent = classdb.get_class(start)
-        if dw.brute_empty(parent):
+        brute_empty = dg.brute_empty if isinstance(parent, dg.G) else dw.brute_empty
+        if brute_empty(parent):
             continue
         try:
             if key in db.rule_to_strategy:
@@ -81,7 +83,7 @@ def observe(db, full: bool) -> Tuple[Dict[str, Any], List[str]]:
             if two_way_store and not rule.is_two_way():
                 probs.append(f"strategy handed back from the two-way store for {key} is not two-way: {strat!r}@@eqv_rule_to_strategy")
             stores.append(two_way_store)
-            ne = tuple(sorted(classdb.get_label(c) for c in rule.children if not dw.brute_empty(c)))
+            ne = tuple(sorted(classdb.get_label(c) for c in rule.children if not brute_empty(c)))
             got = (classdb.get_label(rule.comb_class), ne)
         except Exception as e:  # noqa: BLE001
             probs.append(f"strategy for stored key {key} could not be handed back / re-applied: {type(e).__name__}: {str(e)[:120]}@@{call_site(e)}")
@@ -170,13 +172,13 @@ def configs(tier: str) -> List[Cfg]:
         stats_list = [(), ("a", "ab")]
         packs = ["base", "ver:a,b", "ver:e,a", "ver:e", "ver:b,ab", "verfirst:a,ab", "verfirst:e", "norm+sym", "sym", "inf1",
                  "inf2", "inf2r", "rfac", "sfac", "two", "noinit", "dropempty", "ver:a,b+sym", "ver:a+inf2", "ver:a,b+rfac",
-                 "base+iter", "inf1+iter", "ver:a,b+iter", "rfac2", "oneway", "oneway+inf1", "onewayexp+inf1", "oneway+inf1+sym", "oneway+inf2", "oneway+inf1+iter", "rfac3", "oneway2", "oneway2+inf1", "oneway2+sym"]
+                 "base+iter", "inf1+iter", "ver:a,b+iter", "rfac2", "oneway", "oneway+inf1", "onewayexp+inf1", "oneway+inf1+sym", "oneway+inf2", "oneway+inf1+iter", "rfac3", "oneway2", "oneway2+inf1", "oneway2+sym", "mfac", "mfac+inf1"]
         opts = [{}, {"expand_verified": True}]
     else:
         stats_list = [(), ("a",), ("a", "ab")]
         packs = ["base", "ver:a,b", "ver:e,a", "ver:e", "ver:b,ab", "verfirst:a,ab", "verfirst:e", "norm+sym", "sym", "inf1",
                  "inf2", "inf2r", "rfac", "sfac", "two", "noinit", "dropempty", "ver:a,b+sym", "ver:a+inf2", "ver:a,b+rfac",
-                 "base+iter", "inf1+iter", "ver:a,b+iter", "rfac2", "oneway", "oneway+inf1", "onewayexp+inf1", "oneway+inf1+sym", "oneway+inf2", "oneway+inf1+iter", "rfac3", "oneway2", "oneway2+inf1", "oneway2+sym"]
+                 "base+iter", "inf1+iter", "ver:a,b+iter", "rfac2", "oneway", "oneway+inf1", "onewayexp+inf1", "oneway+inf1+sym", "oneway+inf2", "oneway+inf1+iter", "rfac3", "oneway2", "oneway2+inf1", "oneway2+sym", "mfac", "mfac+inf1", "mfac+sym"]
         opts = [{}, {"expand_verified": True}]
         classes = classes + [c for c in dw.start_classes("thorough") if c not in classes][:60]
     res = []
@@ -185,6 +187,11 @@ def configs(tier: str) -> List[Cfg]:
             for pk in packs:
                 for o in opts:
                     res.append(Cfg.of(c.with_(stats=st), pk, "RuleDB", **o))
+    # parse-tree domain: rules in which the same non-empty class occurs twice among the children
+    fams = ["one"] if tier == "quick" else ["one", "two"]
+    for fam in fams:
+        for g in dg.grammars(fam):
+            res.append(GCfg(g, (), "g", "RuleDB"))
     return res
 
 
